@@ -49,3 +49,71 @@ def make(pid):
         res.floor("protocol call sites", n, ctx.table("floors").get("own_sites_" + pid, 0))
         return res
     return run
+
+
+def stateset(pid):
+    """R-STATESET: the mutable state of the live object is the audited set of tables and counters (the cached FAT,
+    DIFAT and MiniFAT, the free lists, the directory entries, the sector count, a handle's window and position ...),
+    each of which some rule ties to the file (R-WT, R-HDR, R-FREELIST, R-POSKEEP ...).  A state type that acquires
+    one more field that is written after construction has acquired state no rule knows: a remembered chain tail, a
+    last-lookup cache, a cached position - right until something else changes what it was computed from.  Decided by
+    count per type, so that renaming a field is not an alarm."""
+    import json as _json
+    MUT = ("push", "pop", "insert", "remove", "truncate", "clear", "retain", "extend", "extend_from_slice", "append", "take", "replace", "resize", "swap_remove", "drain", "get_or_insert", "get_or_insert_with", "insert_with")
+    TYPES = ("internal::alloc::Allocator", "internal::minialloc::MiniAllocator", "internal::directory::Directory", "internal::sector::Sectors", "internal::chain::Chain", "internal::minichain::MiniChain", "internal::stream::Stream", "internal::stream_buffer::StreamBuffer", "CompoundFile")
+
+    def mutated(ctx):
+        out = {}
+        for f in ctx.fx.fns.values():
+            if f.d.get("is_test") or "::tests::" in f.path:
+                continue
+            pr = None
+            for blk in f.blocks:
+                if blk["cleanup"]:
+                    continue
+                for st in blk["stmts"]:
+                    if st["s"] != "assign":
+                        continue
+                    fl = [e for e in st["place"]["proj"] if e["p"] == "field"]
+                    if fl and fl[0].get("owner") in TYPES and any(e["p"] == "deref" for e in st["place"]["proj"]):
+                        out.setdefault(fl[0]["owner"], {}).setdefault(fl[0]["name"], f.path)
+                t = blk["term"]
+                if t["t"] == "call" and t.get("args"):
+                    from facts import callee_name
+                    nm = callee_name(t) or ""
+                    if nm.split("::")[-1] in MUT:
+                        a0 = t["args"][0]
+                        pl = None
+                        if a0.get("k") in ("copy", "move"):
+                            # `&mut self.field` taken just before the call
+                            l0 = a0["place"]["local"]
+                            for st in blk["stmts"]:
+                                if st["s"] == "assign" and st["place"]["local"] == l0 and not st["place"]["proj"] and st["rv"]["r"] == "ref":
+                                    pl = st["rv"]["place"]
+                        if pl is not None:
+                            fl = [e for e in pl["proj"] if e["p"] == "field"]
+                            if fl and fl[0].get("owner") in TYPES:
+                                out.setdefault(fl[0]["owner"], {}).setdefault(fl[0]["name"], f.path)
+        return out
+
+    def run(ctx):
+        res = RuleResult("R-STATESET(%s)" % pid, "no state type (Allocator, MiniAllocator, Directory, Sectors, Chain, MiniChain, Stream, StreamBuffer, CompoundFile) has more fields written after construction than the audited set in rules/stateset.json")
+        tbl = ctx.table("stateset") if "stateset" in getattr(ctx, "tables", {}) else {}
+        frozen = tbl.get("mutated_fields", {})
+        m = mutated(ctx)
+        n = 0
+        for ty in TYPES:
+            now = m.get(ty, {})
+            was = frozen.get(ty)
+            if was is None:
+                continue
+            n += 1
+            new = sorted(set(now) - set(was))
+            if len(now) > len(was) and new:
+                res.fail(Finding(res.rule, "R-STATESET/%s/new-mutable-field" % ty, "%s has a field written after construction that is not in the audited set: `%s` (written in %s) - state that no write-through, header, free-list or position rule ties to the file or to the tables it was computed from" % (ty.split("::")[-1], new[0], now[new[0]].split("::")[-1]), None))
+            else:
+                res.ok({"type": ty, "mutable_fields": sorted(now)}, nontrivial=True)
+        res.floor("state types with an audited field set", n, ctx.table("floors").get("stateset_types", 0))
+        return res
+    run.mutated = mutated
+    return run
